@@ -211,3 +211,50 @@ func VerifH_C15_ChargesArePositive() {
 		verifrt.Assert(c.addr == client.Addr(), "and is charged to the client")
 	}
 }
+
+// VerifH_C15_HTTPListenerAdmission: the HTTP listeners admit connections through the limiting listener wrapper: three
+// connections from three clients arrive, the limiter refuses any subset: Accept hands out exactly the admitted ones in
+// order, every connection is charged once — to ITS client, with the configured per-connection cost — and a refused
+// connection is closed at once and never handed to the HTTP server.
+func VerifH_C15_HTTPListenerAdmission() {
+	verifrt.Unwind(80)
+	verifrt.CtxNoExpiry = true
+	up := &vKeyedUpstream{}
+	r, charges := vLimitedRouter(up)
+	var conns []*vTCPConn
+	inner := &vListener{}
+	for i := 0; i < 3; i++ {
+		c := newVTCPConn()
+		c.remote = &net.TCPAddr{IP: net.IP{198, 51, 100, byte(10 + i)}, Port: 4000 + i}
+		conns = append(conns, c)
+		inner.conns = append(inner.conns, c)
+	}
+	cost := []int{costTCPConn, costTLSConn}[verifrt.Choose("tls", 2)]
+	l := newListener(inner, r.logger, r.limiter, cost)
+	var got []net.Conn
+	for {
+		c, err := l.Accept()
+		if err != nil {
+			break
+		}
+		got = append(got, c)
+	}
+	verifrt.Reach("drained")
+	verifrt.Assert(len(*charges) == 3, "every connection is submitted to the limiter exactly once")
+	k := 0
+	for i, ch := range *charges {
+		verifrt.Assert(ch.n == cost, "with the per-connection cost of the listener kind")
+		verifrt.Assert(ch.addr == netip.AddrFrom4([4]byte{198, 51, 100, byte(10 + i)}), "charged to the connecting client")
+	}
+	for i, c := range conns {
+		handed := k < len(got) && got[k] == net.Conn(c)
+		if handed {
+			k++
+			verifrt.Assert(!c.closed, "an admitted connection is handed out open")
+		} else {
+			verifrt.Assert(c.closed, "a refused connection is closed at once")
+		}
+		_ = i
+	}
+	verifrt.Assert(k == len(got), "only admitted connections are handed out, in arrival order")
+}
